@@ -15,7 +15,7 @@ PROP = {
 }
 
 MANIFEST = {
-    "text": "Coq theorems (kernel-checked on every run) over a hand model of conf.CreateTypesTable / FieldsFromStruct, checker fieldType / methodType and the identifier, member, method and function cases, vm fetch / FetchFn and the docgen name set, for ALL struct declarations (induction on embedding depth) and all names: accepted => resolvable on the populated value with the assumed type (identifier, member path, method, function positions), Go-resolvable exported members of struct environments are accepted, documentation names = accepted names + fixed names, and independence of Go's map iteration order (explicit permutation argument). Seven recorded defects are carved out by decidable predicates, each with a vm_compute counterexample. The model is executed (vm_compute, two iteration orders) on the environments and names the real code ran on; every case is judged in Go against reflect.FieldByName / MethodByName.",
+    "text": "Coq theorems (kernel-checked on every run) over a hand model of conf.CreateTypesTable / FieldsFromStruct, checker fieldType / methodType and the identifier, member, method and function cases, vm fetch / FetchFn and the docgen name set, for ALL struct declarations (induction on embedding depth) and all names: accepted => resolvable on the populated value with the assumed type (identifier, member path, method, function positions), Go-resolvable exported members of struct environments are accepted, documentation names = accepted names + fixed names, and independence of Go's map iteration order (explicit permutation argument). Since fix b9d2c0f (FieldsFromStruct re-resolves every name with reflect's FieldByName) completeness and the function position are proved at full strength and an identifier is accepted exactly when Go resolves it to an exported field; the five open findings (checker fieldType/methodType: unexported members, depth-first search; method names as identifiers; FetchFn on func-valued maps) are carved out by decidable predicates, each with a vm_compute counterexample; the two repaired findings are kept as examples about the old algorithm ffs_old. The model is executed (vm_compute, two iteration orders) on the environments and names the real code ran on; every case is judged in Go against reflect.FieldByName / MethodByName.",
     "design_ref": "DESIGN.md §4 C16",
     "note": "Trusted: Coq kernel + vm_compute; hand model (validated by correspondence each run); reference go_resolve (validated against reflect each run); harness type serialiser. Method promotion is taken from reflect, not recomputed. Dynamically typed accesses (through interface{}) are out of scope of the property.",
     "technique": "Coq proof by induction on embedding depth over a hand model + executed model/implementation correspondence + implementation-level oracle against Go's reflect",
